@@ -202,6 +202,12 @@ func (pw *Wrapper) checkWorker() {
 				(pw.Phase == ProxyPhaseWaitStart && now.After(pw.lastSendStartMsg.Add(waitResponseTimeout))) ||
 				(pw.Phase == ProxyPhaseStartErr && now.After(pw.lastStartErr.Add(startErrTimeout))) {
 
+				if pw.Phase == ProxyPhaseWaitStart || pw.Phase == ProxyPhaseStartErr {
+					// An earlier request may still be (or have been) completed by the server without us taking
+					// notice of its reply; a repeated request would then be refused as a duplicate of our own
+					// proxy forever. Withdraw whatever the server holds under this name before asking again.
+					pw.close()
+				}
 				xl.Tracef("change status from [%s] to [%s]", pw.Phase, ProxyPhaseWaitStart)
 				pw.Phase = ProxyPhaseWaitStart
 
